@@ -107,3 +107,17 @@ PROPS["C03"]["cabi"] = True
 PROPS["C03"]["quick"]["cabi_runs"] = 400
 PROPS["C03"]["thorough"]["cabi_runs"] = 20000
 PROPS["C03"]["rule"] += "; second part (cabi): each job = one seeded workload (catalogued model, 1-5 cells, parameter sets and input blocks in {1, N, coprime, N+1}, 1-40 timesteps, states passed or initialised by the library, with or without a states buffer) executed by libopenwater.so through the C ABI from a C driver on guard-paged buffers and compared bit for bit with the Go API"
+
+# C05 also covers ow-sim's model goroutines and asynchronous writers: the owsim engine runs under
+# the same scheduler, in the normal binary (schedule independence of the results) and in the
+# -race binary (conflicting unsynchronised accesses)
+PROPS["C05"]["race"] = True
+PROPS["C05"]["also"] = [
+    {"engine": "owsim", "race": False, "runs_quick": 300, "runs_thorough": 40000},
+    {"engine": "owsim", "race": True, "runs_quick": 120, "runs_thorough": 15000},
+]
+PROPS["C05"]["rule"] += "; additional phases run the ow-sim engine of C07 (model goroutines per generation, asynchronous writer goroutines, seeded disk latencies) in the normal and in the -race binary"
+PROPS["C05"]["real"] = PROPS["C05"]["real"] + ["cmd/ow-sim, io (ow-sim phases)"]
+PROPS["C05"]["stub"] = ["HDF5 library (fakehdf5) in the ow-sim phases"]
+
+PROPS["C17"]["rule"] += "; in addition every run converts a seeded float64 view (plain, gapped, stepped, nested; with NaN/+Inf/-Inf cells) with JsonSafeArray for every shift dimension and compares nesting and values"
